@@ -218,9 +218,30 @@ fn c02_profile(index: u64) -> Profile {
     p
 }
 
+/// Runt datagrams (1..3 bytes) from the SRT endpoint, data-like (first byte below 0x80) and
+/// control-like, inside the traffic: too short to carry a sequence number, whatever the receive
+/// buffer still holds from the previous datagram.
+fn sprinkle_client_runts(plan: &mut LPlan, seed: u64) {
+    use crate::lsim::plan::{Action, TimedAction, hex};
+    let mut r = crate::prng::Rng::new(seed ^ 0x4A17);
+    if r.chance(0.4) {
+        let (lo, hi) = traffic_window(plan);
+        for _ in 0..r.range(1, 8) {
+            let mut b = vec![0u8; r.range(1, 3) as usize];
+            r.fill(&mut b);
+            if r.chance(0.7) {
+                b[0] &= 0x7F;
+            }
+            plan.actions.push(TimedAction { t: r.range(lo + 50, hi.max(lo + 51)), kind: Action::ClientRaw { hex: hex(&b) } });
+        }
+        plan.actions.sort_by_key(|a| a.t);
+    }
+}
+
 fn c02_post(plan: &mut LPlan, seed: u64) {
     plan.fine = true;
     inject_ack_nak_noise(plan, seed, 2, 14);
+    sprinkle_client_runts(plan, seed);
     {
         // the client-facing socket fails now and then while ACKs and NAKs are being relayed to the
         // SRT endpoint: what the uplinks' accounting does with them must not depend on that
@@ -749,6 +770,7 @@ fn c15_profile(index: u64) -> Profile {
 }
 
 fn c15_post(plan: &mut LPlan, seed: u64) {
+    sprinkle_client_runts(plan, seed);
     let idx = seed % 4096;
     inject_arbitrary(plan, seed, idx, 400);
     inject_truncations(plan, seed);
@@ -1331,7 +1353,13 @@ impl Check for WCheck {
             }
             let mut t = quiet_from;
             let mut classic = plan.cfg.classic;
+            // half of the runs place every switch a few milliseconds before a housekeeping tick,
+            // after the last 15 ms flush tick before it: nothing else wakes the loop in between
+            let just_before_tick = r.chance(0.5);
             for _ in 0..r.range(1, 3) {
+                if just_before_tick {
+                    t = (t / 1000 + 1) * 1000 - r.range(1, 9);
+                }
                 classic = !classic;
                 let line = format!(r#"{{"jsonrpc":"2.0","method":"set_mode","params":{{"mode":"{}"}}}}"#, if classic { "classic" } else { "enhanced" });
                 plan.actions.push(TimedAction { t, kind: Action::Control { line } });
@@ -1407,9 +1435,21 @@ impl Check for WCheck {
             let pps = *r.pick(&[40u32, 60, 100]);
             plan.actions.push(TimedAction { t: 2_500, kind: Action::Burst { n: pps * secs as u32, pps, size_lo: 900, size_hi: 1316, stride: 1 } });
             let same: String = (0..n).map(|l| format!("{}\n", crate::lsim::path_ip(l))).collect();
+            let plus: String = (0..n + 1).map(|l| format!("{}\n", crate::lsim::path_ip(l))).collect();
             let mut t = 2_500 + r.range(3_000, 9_000);
+            let mut grown = false;
             while t < 2_500 + secs * 1000 {
-                plan.actions.push(TimedAction { t, kind: Action::Reload { text: Some(same.clone()) } });
+                // mostly reloads that change nothing; now and then one that adds an address (the
+                // surviving links' state must not notice) and a later one that removes it again
+                let text = if r.chance(0.35) {
+                    grown = !grown;
+                    if grown { plus.clone() } else { same.clone() }
+                } else if grown {
+                    plus.clone()
+                } else {
+                    same.clone()
+                };
+                plan.actions.push(TimedAction { t, kind: Action::Reload { text: Some(text) } });
                 t += r.range(3_000, 13_000);
             }
             plan.horizon_ms = 2_500 + secs * 1000 + 1_500;
